@@ -81,6 +81,17 @@ CLAIMED = {
          "assumed contracts (mirrored and compared)"),
    technique="Lean 4 theorems over the rewrite model + handler-level differential with spec oracle",
    design='7/C09'),
+ 'C14': dict(
+   text=("Proof (Lean 4) over a model of the two watched paths and CertWatcher's load-validate-then-swap: for EVERY history of update "
+         "steps (incl. garbage, empty, partial, mismatched) the served pair is the initial one or one whose certificate and key were on "
+         "disk together at an earlier moment (served_is_validated_pair), a failed load keeps the last good pair (keeps_last_good), and "
+         "once the valid pair is on disk one notification suffices to serve it (converges, converges_after_last_step). Validated on the "
+         "real file system with real fsnotify and real handshakes for the three update styles"),
+   note=("PARTIAL: which changes produce an event is the fsnotify/inotify contract (assumed, validated by the stream); event latency is "
+         "real time. Known finding D17 (symlink swap without deleting the old directory never reloads; swap_keep_witness) is recorded in "
+         "KNOWN_FINDINGS.json, matched by the class predicate symlink-swap-without-delete"),
+   technique="Lean 4 invariant + convergence theorems + file-operation differential against the real watcher",
+   design='7/C14'),
  'C15': dict(
    text=("Proof (Lean 4): ServeHTTP answers locally (200, OK) iff probe support is on and the first User-Agent value begins with "
          "'kube-probe/', otherwise forwards — never both, never neither (route_exclusive, disabled_forwards); probe test, local "
